@@ -79,6 +79,10 @@ func genC10(t *rapid.T) FaultCase {
 	}
 	fc.Fault = rapid.SampledFrom(faults).Draw(t, "fault")
 	fc.Pos = genPos(t, fc.Len)
+	if fc.Fault == "reader-error" {
+		fc.SrcErr = rapid.SampledFrom([]string{"", "", "unexpected-eof", "unexpected-eof", "wrapped-eof", "canceled", "deadline"}).Draw(t, "srcErr")
+		fc.SrcData = rapid.IntRange(0, 3).Draw(t, "srcData") == 0
+	}
 	if fc.Fault == "recv-error" {
 		nmsg := 1 + (fc.Len+2047)/2048
 		fc.Pos = rapid.OneOf(rapid.SampledFrom([]int{0, 1, 2, nmsg - 1, nmsg}), rapid.IntRange(0, nmsg)).Draw(t, "msg")
